@@ -51,17 +51,19 @@ SpecStep(r) ==
 RawApi(o) == /\ \A a \in Acc : o.acc[a].bal = o.api[a]
              /\ o.rawSupply = o.supply
 
+\* r.nf: the scenario locks onto addresses that already hold an ordinary entry (outside C01's quantifier - the entry's
+\* balance is overwritten - but inside C09's): only the C09 predicates and the binding are judged on such traces
 Judge(r) ==
   LET e == EvOf(r)
       t == Tags(r)
-  IN  /\ Flag(C01_SupplyIsSum, "C01", "SupplyIsSum", r, t)
-      /\ Flag(C01_NoNegative, "C01", "NoNegative", r, t)
-      /\ Flag(C01_SupplyDelta(e), "C01", "SupplyDelta", r, t)
-      /\ Flag(C01_FailedInert(e), "C01", "FailedInert", r, t)
-      /\ Flag(C01_Announced(e), "C01", "Announced", r, t)
+  IN  /\ Flag(r.nf \/ C01_SupplyIsSum, "C01", "SupplyIsSum", r, t)
+      /\ Flag(r.nf \/ C01_NoNegative, "C01", "NoNegative", r, t)
+      /\ Flag(r.nf \/ C01_SupplyDelta(e), "C01", "SupplyDelta", r, t)
+      /\ Flag(r.nf \/ C01_FailedInert(e), "C01", "FailedInert", r, t)
+      /\ Flag(r.nf \/ C01_Announced(e), "C01", "Announced", r, t)
       /\ Flag(r.bad = <<>> /\ r.obs.stray = <<>>, "C01", "NoStrayOrFractional", r, t)
-      /\ Flag(C02_AuthorisedDebit(e), "C02", "AuthorisedDebit", r, t)
-      /\ Flag(C02_PublicTransfer(e), "C02", "PublicTransfer", r, t)
+      /\ Flag(r.nf \/ C02_AuthorisedDebit(e), "C02", "AuthorisedDebit", r, t)
+      /\ Flag(r.nf \/ C02_PublicTransfer(e), "C02", "PublicTransfer", r, t)
       /\ Flag(C09_NoEarly(lk, e), "C09", "NoEarly", r, t)
       /\ Flag(C09_AtExpiry(lk, e), "C09", "AtExpiry", r, t)
       /\ Flag(C09_Stays(lk, e), "C09", "Stays", r, t)
